@@ -35,7 +35,7 @@ def run(ctx):
             raise vlib.ToolError("vacuity: no accepted %s write" % need)
     if not any(e["closed"] and e["cfg"].get("flag.enable_market_closed_params") == "true" for e in ev):
         raise vlib.ToolError("vacuity: closed-market switch never in force")
-    for f in fails:
+    for f in fails[:100]:      # the first failures are enough to decide and to replay
         e = ev[f["i"] - 1]
         ctx.report(classify(e, f["mon"]), {"driver": "h-programs c16 all", "event_index": f["i"], "event": e})
     ctx.assumptions += ["values are opaque distinct numbers per key (1000+i, 5000+i, 0 for the 'unset' liquidation factors); "
